@@ -70,7 +70,8 @@ func generate(seed uint64, prop string) simrt.Case {
 	r := simrt.NewRand(seed)
 	cfg := config{Seed: seed, Replicas: 3 + r.Intn(3), Accounts: 2 + r.Intn(3), PartSize: []int{256, 4096, 65536}[r.Intn(3)]}
 	nblocks := 3 + r.Intn(7)
-	if prop == "C14" {
+	adminProfile := prop == "C14" || prop == "C20"
+	if adminProfile {
 		nv := 1 + r.Intn(4)
 		for i := 0; i < nv; i++ {
 			cfg.Powers = append(cfg.Powers, []int64{1, 3, 3, 5, 10}[r.Intn(5)])
@@ -98,22 +99,28 @@ func generate(seed uint64, prop string) simrt.Case {
 				acts = append(acts, simrt.Action{K: "routines", N: rp, A: int64(1 + r.Intn(16))})
 			}
 		}
-		if prop == "C14" && b > 0 && r.Chance(1, 3) {
+		if adminProfile && b > 0 && r.Chance(1, 3) {
 			// a client replays an accepted request as a read-only contract query at one replica
 			acts = append(acts, simrt.Action{K: "adminquery", N: r.Intn(cfg.Replicas), A: int64(r.Intn(1 << 16))})
+		}
+		if prop == "C20" || (prop == "C14" && r.Chance(1, 4)) {
+			// peers knock at a replica's door
+			for i := 0; i < 1+r.Intn(3); i++ {
+				acts = append(acts, simrt.Action{K: "admit", N: r.Intn(cfg.Replicas), S: admitVariants[r.Intn(len(admitVariants))], A: int64(r.Intn(1 << 16))})
+			}
 		}
 		k := 0
 		if r.Chance(5, 6) {
 			k = 1 + r.Intn(10)
 		}
 		for i := 0; i < k; i++ {
-			kinds := []string{"transfer", "create", "call", "kv", "kv", "kv-bad", "badsig", "garbage", "replay", "stale", "future", "precompile", "admin-short", "admin-direct", "empty", "lowgas"}
-			w := []int{10, 8, 10, 10, 6, 3, 3, 3, 5, 4, 3, 6, 0, 0, 1, 2}
+			kinds := []string{"transfer", "create", "call", "kv", "kv", "kv-bad", "badsig", "garbage", "replay", "stale", "future", "precompile", "admin-short", "admin-direct", "empty", "lowgas", "create-fail", "admin-len"}
+			w := []int{10, 8, 10, 10, 6, 3, 3, 3, 5, 4, 3, 6, 0, 0, 1, 2, 2, 0}
 			if prop == "C09" {
-				w = []int{6, 6, 8, 6, 4, 5, 5, 5, 6, 5, 4, 10, 4, 3, 2, 3}
+				w = []int{6, 6, 8, 6, 4, 5, 5, 5, 6, 5, 4, 10, 4, 3, 2, 3, 5, 5}
 			}
 			kd := kinds[r.Pick(w)]
-			if prop == "C14" && r.Chance(1, 2) {
+			if adminProfile && r.Chance(1, 2) {
 				kd = "admin:" + adminVariants[r.Intn(len(adminVariants))]
 			}
 			acts = append(acts, simrt.Action{K: "tx", S: kd, N: r.Intn(cfg.Accounts), A: int64(r.Intn(1 << 16)), B: int64(r.Intn(220)), C: int64(ntx)})
@@ -186,6 +193,9 @@ type world struct {
 	// C14
 	vkeys          []crypto.PrivKeyEd25519 // validator key pool (the genesis validators are among them)
 	valRef         map[string]int64        // reference validator set: address -> power
+	caRef          map[string]bool         // reference: which members are certificate authorities
+	refuseRef      map[string]bool         // reference refuse list (public key bytes)
+	removedKeys    []string                // addresses of validators that were removed at some point
 	adminLog       []adminRec
 	pendingTargets map[string]bool
 	pendingRemoved int64
@@ -258,7 +268,7 @@ func (w *world) mkTx(a simrt.Action) *txInfo {
 	}
 	nonce := w.next[acct.addr]
 	switch a.S {
-	case "transfer", "create", "call", "kv", "precompile", "admin-direct", "admin-short":
+	case "transfer", "create", "call", "kv", "precompile", "admin-direct", "admin-short", "create-fail", "admin-len":
 		w.next[acct.addr]++ // the following transactions of this account continue from here
 	}
 	var areq *adminReq
@@ -301,6 +311,21 @@ func (w *world) mkTx(a simrt.Action) *txInfo {
 	case "create":
 		rt := runtimes[int(a.A)%len(runtimes)]
 		ti.raw = sign(etypes.NewContractCreation(nonce, zero, gas, zero, initCode(rt)), acct.key)
+	case "create-fail":
+		// a contract creation whose init code fails (REVERT, INVALID, stack underflow, jump to nowhere, out of gas):
+		// the transaction is valid, the sender's nonce moves, no contract appears
+		codes := [][]byte{common.Hex2Bytes("60006000fd"), {0xfe}, {0x01}, common.Hex2Bytes("600556"), common.Hex2Bytes("5b600056")}
+		ti.raw = sign(etypes.NewContractCreation(nonce, zero, gas, zero, codes[int(a.A)%len(codes)]), acct.key)
+	case "admin-len":
+		// the governance precompile called directly, in the caller's own name, with every boundary value of the
+		// announced length in front of a body of seeded size
+		body := simrt.NewRand(uint64(a.A) + 5).Bytes(int(a.B))
+		total := uint64(20 + len(body))
+		lens := []uint64{0, 1, 19, 20, 21, total - 1, total, total + 1, total + 32, 1 << 32, ^uint64(0), ^uint64(0) - 31, ^uint64(0) - 32}
+		l := lens[int(a.A/7)%len(lens)]
+		data := append(common.LeftPadBytes(new(big.Int).SetUint64(l).Bytes(), 32), acct.addr.Bytes()...)
+		data = append(data, body...)
+		ti.raw = sign(etypes.NewTransaction(nonce, common.BytesToAddress([]byte{0xfe}), zero, gas, zero, data), acct.key)
 	case "call":
 		if len(w.contracts) == 0 {
 			ti.raw = sign(etypes.NewTransaction(nonce, common.BytesToAddress([]byte{0x77}), zero, gas, zero, []byte{1, 2, 3}), acct.key)
@@ -537,7 +562,7 @@ func run(t *testing.T, prop string, c simrt.Case, out *simrt.Outcome, lg *simrt.
 	w.initValidators()
 	w.pendingTargets = map[string]bool{}
 	gen := &types.GenesisDoc{GenesisTime: w.start, ChainID: fullnode.ChainID, Validators: w.genesisValidators()}
-	w.env = &fullnode.Env{Reg: w.reg, Genesis: gen, BlockPartSize: cfg.PartSize, Plugins: "adminOp", BlockSize: cfg.BlockSize}
+	w.env = &fullnode.Env{Reg: w.reg, Genesis: gen, BlockPartSize: cfg.PartSize, Plugins: "adminOp", BlockSize: cfg.BlockSize, AuthByCA: true}
 	for i := 0; i < cfg.Accounts; i++ {
 		h := sha256.Sum256([]byte(fmt.Sprintf("execsim-acct-%d-%d", cfg.Seed, i)))
 		k, err := ethcrypto.ToECDSA(h[:])
@@ -825,6 +850,8 @@ func run(t *testing.T, prop string, c simrt.Case, out *simrt.Outcome, lg *simrt.
 			if a.N > 0 && a.N < len(w.reps) {
 				w.armed[a.N] = a.A
 			}
+		case "admit":
+			w.admit(a)
 		case "adminquery":
 			w.adminQuery(a)
 		case "submit":
